@@ -54,9 +54,11 @@ def expected(seq):
 def build(fbg, rbg, own, outline):
     sc = {"location": loc(), "tags": [], "keyword": "Scenario", "name": "s", "description": "", "steps": [step(t) for t in own], "examples": []}
     if outline:
+        # two examples tables, the first with two body rows: state must not carry over between rows or tables
         sc["examples"] = [{"location": loc(), "tags": [], "keyword": "Examples", "name": "", "description": "",
                            "tableHeader": {"location": loc(), "cells": [{"location": loc(), "value": "h"}]},
-                           "tableBody": [{"location": loc(), "cells": [{"location": loc(), "value": "v"}]}]}]
+                           "tableBody": [{"location": loc(), "cells": [{"location": loc(), "value": v}]} for v in vals]}
+                          for vals in (["v1", "v2"], ["w"])]
     children = []
     if fbg:
         children.append({"background": {"location": loc(), "keyword": "Background", "name": "", "description": "", "steps": [step(t) for t in fbg]}})
@@ -84,14 +86,14 @@ def check_seq(seq, i, j, M):
         M.count("sequences_checked")
         got = pc.compare(doc, "u", k, ID, M, case)
         if got:
-            types = [s.get("type") for s in got[0]["steps"]]
+            types = [[s.get("type") for s in p["steps"]] for p in got]
             res[outline] = types
-            if types != want:
+            if any(t != want for t in types):
                 M.count("types_differ_from_statement")
-    if len(res) == 2 and res[False] != res[True]:
-        M.violation("C10.plain_vs_outline", {"what": "plain scenario and outline give different step types", "plain": res[False], "outline": res[True], "seq": seq},
+    if len(res) == 2 and any(t != res[False][0] for t in res[True]):
+        M.violation("C10.plain_vs_outline", {"what": "plain scenario and outline (some example row) give different step types", "plain": res[False][0], "outline_rows": res[True], "seq": seq},
                     {"kind": "seq", "seq": seq, "i": i, "j": j, "outline": True},
-                    mechanism=pc.D2 if None in res[True] else None)
+                    mechanism=pc.D2 if any(None in t for t in res[True]) else None)
 
 
 def run_shard(spec, M):
@@ -142,7 +144,7 @@ def run_dialect(d, L, M):
                         lines += ["  " + bgk + ":"] + ["    " + kws[t] + "b" for t in seq[:nbg]]
                     lines += ["  " + sck + ": s"] + ["    " + kws[t] + "s" for t in seq[nbg:]]
                     if outline:
-                        lines += ["    " + exk + ":", "      | h |", "      | v |"]
+                        lines += ["    " + exk + ":", "      | h |", "      | v |", "      | w |", "    " + exk + ":", "      | h |", "      | x |"]
                     text = "\n".join(lines) + "\n"
                     o = observe.parse_observed(text)
                     M.case(h64(text))
@@ -158,7 +160,7 @@ def run_dialect(d, L, M):
                         read = [dialects.expected_step(spec, kws[t] + ("b" if n_ < nbg else "s"))[1] for n_, t in enumerate(seq)]
                         want = expected(read)
                         M.count("sequences_checked")
-                        have = [s.get("type") for s in got[0]["steps"]]
+                        have = next(([s.get("type") for s in p["steps"]] for p in got if [s.get("type") for s in p["steps"]] != want), want)
                         if have != want:
                             M.violation("C10.types", {"what": "step types differ from the statement's rule", "dialect": d, "got": have, "want": want},
                                         {"kind": "text", "text": text}, mechanism=pc.D2 if None in have else None)
